@@ -389,4 +389,7 @@ def run(ctx) -> Report:
         "float literals denote exact rationals (1.0/3 == 1/3)",
         "matrix dimensions above 5 (determinant) / 4 (adjugate, cofactor) are rejected or handled by the same recursive code",
     ]
+    from ..memokey import memo_rule
+
+    memo_rule(ctx, rep, "C06-key", ['ufl.algorithms.apply_algebra_lowering', 'ufl.compound_expressions'])
     return rep
